@@ -1,8 +1,8 @@
 """C11 - the S-expression reader returns the text's parenthesis structure, all of it.
 
 Monitor: every PDDLTokenizer(...).parse() call made by the workload is compared with the
-reference reader on the same characters (result or raise).  Bare-atom top-level inputs and
-lone-CR line ends are not judged."""
+reference reader on the same characters (result or raise).  Bare-atom top-level inputs are not judged;
+bare CR line ends are judged like LF and CR LF (universal newlines)."""
 import itertools
 import os
 from pathlib import Path
@@ -19,7 +19,7 @@ DECISIVE = ["compared"]
 DECISIVE_EACH = ["compared:file", "compared:str", "compared:malformed"]
 EXHAUSTIVE = "all token trees with <= N nodes over the alphabet {a, b-1, ?x} (N=5 quick, sampled at the bound / N=7 thorough)"
 ASSUMPTIONS = ["reference reader vlib.sx.read is the specification (validated by round-trip self-test)",
-               "lone CR line ends and bare-atom top-level inputs are outside the statement"]
+               "bare-atom top-level inputs are outside the statement"]
 SHARDS = {"quick": 8, "thorough": 16}
 
 ALPHA = ["a", "b-1", "?x"]
@@ -69,8 +69,7 @@ def lib_parse(text, mode):
 def judge(ctx, text, mode, origin, expected_tree=None):
     """one monitored parse() call"""
     if "\r" in text.replace("\r\n", ""):
-        ctx.count("skipped_lone_cr")
-        return
+        ctx.count("texts_with_bare_cr_line_ends")
     if sx.is_bare_atom_input(text):
         ctx.count("skipped_bare_atom")
         return
@@ -161,7 +160,7 @@ def run(ctx):
             layouts = [plain]
             for k in range((3 if n <= 6 else 1) if thorough else 2):
                 layouts.append(sx.render(t, rng, hostile=rng.choice([0.3, 0.7, 1.0]), upper=rng.choice([0, 0.5]),
-                                         crlf=rng.random() < 0.3))
+                                         crlf=rng.choice([False, False, True, "cr"])))
             for txt in layouts:
                 for mode in ("file", "str"):
                     judge(ctx, txt, mode, "exhaustive-tree", expected_tree=t)
@@ -180,7 +179,7 @@ def run(ctx):
         if isinstance(t, str):
             t = [t]
         txt = sx.render(t, rng, hostile=rng.choice([0.1, 0.4, 0.9]), upper=rng.choice([0, 0.3, 1.0]),
-                        crlf=rng.random() < 0.3)
+                        crlf=rng.choice([False, False, True, "cr"]))
         for mode in ("file", "str"):
             judge(ctx, txt, mode, "random-tree", expected_tree=t)
         plain = sx.plain(t)
